@@ -357,7 +357,7 @@ class R:
         if h["reply_on"] == "success":
             dp = self.data_param(h)
             if dp:
-                params.append(f"{h.get('data_attr_text') or dp[0]} data: {dp[1]}")
+                params.append(f"{h.get('data_attr_prefix', '')}{h.get('data_attr_text') or dp[0]} data: {dp[1]}")
                 echo.append(f"(\"data\", {dp[2]})")
         elif h["reply_on"] == "error":
             params.append("error: String")
